@@ -137,6 +137,21 @@ func runC15(rc *RC) {
 			payload = append(payload, 'x')
 		}
 	}
+	// a reader that falls behind by more than half of its buffer limit (never beyond the limit), catches up completely,
+	// and falls behind again: every packet fits, none may be refused
+	lagDrain := overflow && ch.Chance("workload", 1, 2)
+	lagLimit, lagS1 := 0, 0
+	part1Done := false
+	if lagDrain {
+		lagLimit = block * ch.Range("workload", 8, 24)
+		lagS1 = lagLimit/2 + ch.Range("workload", 1, lagLimit/2-block)
+		s2 := ch.Range("workload", block, lagLimit-block)
+		payload = make([]byte, lagS1+s2)
+		for i := range payload {
+			payload[i] = byte(33 + (i*11)%90)
+		}
+	}
+	rc.Describe("lag-drain=%v limit=%d first=%d", lagDrain, lagLimit, lagS1)
 	rc.Describe("overflow=%v strategy=%s block=%d carrier-iq=%v accept=%d reverse=%v len=%d len2=%d closer=%d readbuf=%d wrap=%v tailA=%d tailB=%d early-close=%v", overflow, strat, block, ack, acceptMode, reverse, len(payload), len(payload2), closer, rbuf, wrap, tailA, tailB, earlyClose)
 	rc.CaseKey = fmt.Sprint(block, ack, acceptMode, reverse, closer)
 	bJID := jid.MustParse("example.net")
@@ -255,11 +270,15 @@ func runC15(rc *RC) {
 				})
 			}
 			if overflow {
-				connB.(*ibb.Conn).SetReadBuffer(3 * block)
+				if lagDrain {
+					connB.(*ibb.Conn).SetReadBuffer(lagLimit)
+				} else {
+					connB.(*ibb.Conn).SetReadBuffer(3 * block)
+				}
 				bufSet = true
 			}
 			rc.Spawn("reader-b", func() {
-				simrt.WaitUntil("reader-b:go", func() bool { return readGo })
+				simrt.WaitUntil("reader-b:go", func() bool { return readGo || part1Done })
 				readAll(rc, connB, &rdB, rbuf)
 			})
 			if closer == 1 || closer == 3 {
@@ -289,7 +308,30 @@ func runC15(rc *RC) {
 			rc.Spawn("reader-a", func() { readAll(rc, connA, &rdA, rbuf) })
 		}
 		simrt.WaitUntil("writer-a:buffer-limit-set", func() bool { return bufSet || acceptErr != nil })
-		werrA = writeAll(connA, connA.Flush, payload, "wa", tailA)
+		if lagDrain {
+			// packets of at most one block each, so that none is larger than what the reader's buffer has room for
+			small := func(data []byte) error {
+				for len(data) > 0 {
+					k := 1 + ch.Int("wa", min(len(data), block))
+					if _, err := connA.Write(data[:k]); err != nil {
+						return fmt.Errorf("Write: %w", err)
+					}
+					data = data[k:]
+					if err := connA.Flush(); err != nil {
+						return fmt.Errorf("Flush: %w", err)
+					}
+				}
+				return nil
+			}
+			werrA = small(payload[:lagS1])
+			part1Done = true
+			simrt.WaitUntil("writer-a:reader-caught-up", func() bool { return len(rdB.got) >= lagS1-2 || rdB.done || acceptErr != nil || werrA != nil || phase >= 2 })
+			if werrA == nil {
+				werrA = small(payload[lagS1:])
+			}
+		} else {
+			werrA = writeAll(connA, connA.Flush, payload, "wa", tailA)
+		}
 		writeDoneA = true
 		if closer == 0 || closer == 3 {
 			simrt.WaitUntil("closer-a", func() bool { return phase >= 1 })
@@ -358,6 +400,19 @@ func runC15(rc *RC) {
 	}
 	if !openDone || openErr != nil || !acceptDone || acceptErr != nil {
 		rc.Failf("C15.c1", "open-failed", "open/accept did not complete: openDone=%v err=%v acceptDone=%v err=%v status=%v stuck=%v", openDone, openErr, acceptDone, acceptErr, st, rc.S.Stuck())
+		finishC15(rc, p, &phase)
+		return
+	}
+	if lagDrain {
+		rc.Evals["C15.c4"]++
+		rc.Fire("lag-then-drain")
+		ca := rc.Spawn("close-a", func() { connA.Close() })
+		rc.S.Run(func() bool { return rdB.done && ca.Done() }, 400000, time.Minute)
+		if werrA != nil {
+			rc.Failf("C15.c4", "packet-within-buffer-refused", "the reader was at most %d bytes behind a receive buffer of %d bytes (it had caught up after the first %d bytes), packets carry at most %d bytes, but writing ended with %v", max(lagS1, len(payload)-lagS1), lagLimit, lagS1, block, werrA)
+		} else if !bytes.Equal(rdB.got, payload) || !rdB.eof {
+			rc.Failf("C15.c2", "lagging-reader-data", "the reader got %d of %d bytes (equal prefix %d), eof=%v err=%v", len(rdB.got), len(payload), commonPrefix(rdB.got, payload), rdB.eof, rdB.err)
+		}
 		finishC15(rc, p, &phase)
 		return
 	}
@@ -458,8 +513,28 @@ func runC15(rc *RC) {
 			{"bad-base64", sid, strconv.Itoa(nextSeq % 65536), "QUJD!!!*", "bad-request"},
 			// base64 that ends in the middle of a group (no padding), a lone padding character, white space only
 			{"truncated-base64", sid, strconv.Itoa(nextSeq % 65536), []string{"QUJDQQ", "QUJDQ", "Q", "QUJDQQ=", "="}[ch.Int("workload", 5)], "bad-request"},
+			// a packet without data is a packet all the same: out of sequence it is refused
+			{"wrong-seq-empty", sid, strconv.Itoa((nextSeq + 7) % 65536), "", "unexpected-request"},
+		}
+		if tailA == 0 && !reverse && len(payload)%3 == 0 {
+			// … and in sequence it uses up its number: the same number once more, now with data, is out of sequence. (The
+			// opener's own writer sends nothing after this - no unflushed tail, no incomplete base64 group held back for Close - so nobody misses the number.)
+			injs = append(injs, inj{"empty-then-replay", sid, strconv.Itoa(nextSeq % 65536), "", "unexpected-request"})
 		}
 		in := injs[ch.Int("workload", len(injs))]
+		if in.name == "empty-then-replay" {
+			first := rc.Spawn("injector-empty", func() {
+				ictx, c2 := context.WithTimeout(ctx, 20*time.Second)
+				defer c2()
+				r, err := p.A.SendIQ(ictx, stanza.IQ{Type: stanza.SetIQ, To: bJID, ID: "inj0"}.Wrap(xmlstream.Wrap(nil,
+					xml.StartElement{Name: xml.Name{Space: ibb.NS, Local: "data"}, Attr: []xml.Attr{{Name: xml.Name{Local: "sid"}, Value: in.sid}, {Name: xml.Name{Local: "seq"}, Value: in.seq}}})))
+				if err == nil {
+					r.Close()
+				}
+			})
+			rc.S.Run(func() bool { return first.Done() }, 200000, time.Minute)
+			in.data = "QUJD"
+		}
 		var cond string
 		var ierr error
 		it := rc.Spawn("injector", func() {
@@ -771,3 +846,11 @@ func checkIBBWire(rc *RC, tap []byte, sid string, atLeast, written []byte, label
 }
 
 var errListenerClosed = errors.New("harness: listener closed by the application")
+
+func commonPrefix(a, b []byte) int {
+	n := 0
+	for n < len(a) && n < len(b) && a[n] == b[n] {
+		n++
+	}
+	return n
+}
